@@ -51,7 +51,10 @@ else:
     note("with change: " + demo_cmd, rc1, o1)
     # the existing suite, demos excluded
     rc2, o2 = sh("cargo test --offline --workspace --lib --bins; cargo test --offline -p rotala --test uist_test --test jura_test; cargo test --offline -p alator --test staticweight_test", cwd=wt)
-    failed = "FAILED" in o2 or "error[" in o2 or "could not compile" in o2
+    # the baseline's http::jura::tests::test_single_trade_loop fails about one run in ten on random data (DESIGN 8.2)
+    bad = [l for l in o2.split("\n") if l.startswith("test ") and l.rstrip().endswith("FAILED")
+           and "jura::tests::test_single_trade_loop" not in l]
+    failed = bool(bad) or "error[" in o2 or "could not compile" in o2
     note("with change: existing suite", 1 if failed else 0, "\n".join(l for l in o2.split("\n") if "test result" in l or "FAILED" in l or "failed" in l))
     sh("git checkout -q -- .", cwd=wt)
     meta["confirmed"] = (rc0 == 0 and rc1 != 0 and not failed)
